@@ -7,6 +7,8 @@
     udq.parse <tok>*                      -> ast <tree> | err (extra tokens / invalid tree)
     udq.eval <T> <ctx>* | <tok>*          -> ok <vt> <name-hex>=<bits|u>,… | err | noparse
     udq.hist <n> <ev>*                    -> <per step values>           (see `UdqHist.lean`)
+    udq.tokenize <item-hex>*              -> ok <tok>* | err (unbalanced quotes) | ub (no `]`: past the end)
+                                             (`normalize_string_tokens` + `make_udq_tokens` of UDQDefine.cpp)
     udq.vtype <T> <tok>*                  -> ok <var_type code> <tree> | err | typeerr | throw | unmodelled
                                              (`parseUDQExpression` with the static type check; `T` = W|G|F)
     udq.whist (; D <key-hex> <T> <tok>*)* (; S <ctx>*)*
@@ -22,6 +24,7 @@
 import OpmVerif.Model.UdqEval
 import OpmVerif.Model.UdqHist
 import OpmVerif.Model.UdqType
+import OpmVerif.Model.UdqLex
 -- driver: prefix=udq handler=OpmVerif.Udq.handle
 
 namespace OpmVerif.Udq
@@ -279,6 +282,19 @@ def handle (op : String) (args : List String) : String :=
       | _, _, _ => "bad-op"
     | _ => "bad-op"
   | "udq.hist" => Hist.handleHist args
+  | "udq.tokenize" =>
+    match args.mapM hexStr with
+    | none => "bad-op"
+    | some items =>
+      match Lex.tokenize (items.map String.toList) with
+      | .unbalanced => "err"
+      | .pastEnd => "ub"
+      | .ok ts => "ok" ++ String.join (ts.map fun t =>
+          " " ++ (if t.ty = .number then "n:" ++ natHex16 (Lex.numberValue t.text).toBits.toNat
+                  else if t.ty = .ecl_expr then
+                    "e:" ++ strHex (String.ofList t.text) ++ ":" ++
+                      (if t.sel.isEmpty then "-" else ",".intercalate (t.sel.map fun x => strHex (String.ofList x)))
+                  else "s:" ++ strHex (String.ofList t.text)))
   | "udq.vtype" =>
     match args with
     | t :: toks =>
